@@ -230,7 +230,7 @@ class Main(Suite):
     go_cmd = "c21"
     coq_imports = "From GoGit Require Import Model.Gc Model.Crash."
     quick_n = 90
-    thorough_n = 450
+    thorough_n = 320
     coq_chunk = 60
     impl_env = {"TMPDIR": "/dev/shm"} if os.path.isdir("/dev/shm") else None
 
